@@ -391,8 +391,9 @@ def rule4_signed(ctx, fl):
         ctx.ob('C15.4', 'myth_get_available_cpus: %s restarts from 0 on every call' % gname, any(ga.dominates_f(z, st) for z in zs),
                'the table of usable CPUs is rebuilt by every initialisation; a counter that survives myth_fini makes the table grow '
                'past its end after enough init / fini cycles', loc=st.loc)
-    ctx.ob('C15.4', 'myth_get_available_cpus: counted table fill found', len(incs) >= 1, 'n_available_cpus++', loc=ga.loc)
-    ctx.floor('C15.4', 24)
+    if not incs:
+        ctx.note('C15.4: myth_get_available_cpus fills its table without a global counter; the restart clause does not apply')
+    ctx.floor('C15.4', 23)
 
 
 def rule5_getters(ctx, fl):
